@@ -49,6 +49,7 @@ _dst = None  # Distributions object
 _bs_prm = None  # [Rmax, order, odd]
 _bs = None  # [P[n]] — projected functions
 _ibs = None  # [rbin, wl, wu, cos^n] — arrays for image construction
+_ibs_prm = None  # [height, width, row] — geometry of _ibs
 _trf = None  # [Af[n]] — forward transform matrices
 _tri_full = None  # [Ai[n]] — inverse-transform matrices without mask and reg
 _tri_prm = None  # [reg] — regularization parameters
@@ -298,9 +299,9 @@ def _profiles(IM, origin, rmax, order, odd, weights, verbose):
 
 
 def _get_image_bs(height, width, row, verbose):
-    global _ibs
+    global _ibs, _ibs_prm
 
-    if _ibs is not None:
+    if _ibs is not None and _ibs_prm == [height, width, row]:
         if verbose:
             print('(using cached image basis)')
         return _ibs
@@ -344,6 +345,7 @@ def _get_image_bs(height, width, row, verbose):
 
         _ibs = [rbin, wl, wu, cos]
 
+    _ibs_prm = [height, width, row]
     return _ibs
 
 
